@@ -124,11 +124,18 @@ Proof.
   - eapply cat_sim_mono; eauto.
 Qed.
 
+Lemma rand_sim_mono phi uu phi' uu' d r : phi_le phi phi' -> grows uu uu' -> rand_sim phi uu d r -> rand_sim phi' uu' d r.
+Proof.
+  intros Hp Hu [H1 H2 H3 H4]. constructor; try assumption.
+  eapply Forall2_impl; [|exact H3]. intros x y [A B]. split; [exact A|eapply dest_sim_mono; eauto].
+Qed.
+
 Lemma node_sim_mono phi uu phi' uu' n nd o : phi_le phi phi' -> grows uu uu' -> node_sim phi uu n nd o -> node_sim phi' uu' n nd o.
 Proof.
   intros Hp Hu H. destruct H.
   - eapply NS_basic; eauto. eapply dest_sim_mono; eauto.
   - eapply NS_router; eauto. eapply dec_sim_mono; eauto.
+  - eapply NS_random; eauto. eapply rand_sim_mono; eauto.
   - eapply NS_implicit; eauto. eapply dec_sim_mono; eauto.
 Qed.
 
@@ -478,6 +485,125 @@ Proof.
       * (* a new category of that name *)
         destruct Hfn as [Hfn _]. unfold sw_all_cats at 1. rewrite (find_app_none _ _ _ Hfn), (Hrest nm Hg Hnr).
         apply (Hnew (CFixed nm) nm). reflexivity.
+Qed.
+
+(* ---------------------------------------------------------------- random splits: add_bucket against RandomRouter.add_choice *)
+Definition undec (a : N) (s : str) : N := fold_left (fun a c => (10 * a + (c - 48))%N) s a.
+
+Lemma dec_aux_undec f : forall n acc a, (N.to_nat n < f)%nat -> exists m, undec a (dec_aux f n acc) = undec (a * 10 ^ m + n)%N acc.
+Proof.
+  induction f as [|f IH]; intros n acc a Hf; [lia|]. cbn [dec_aux].
+  pose proof (N.div_mod n 10 ltac:(lia)) as Hdm. pose proof (N.mod_lt n 10 ltac:(lia)) as Hlt.
+  set (d := (n mod 10)%N) in *. set (q := (n / 10)%N) in *. clearbody d q. unfold undec in *.
+  destruct (N.eqb q 0) eqn:Eq.
+  - apply N.eqb_eq in Eq. exists 1%N. cbn [fold_left]. f_equal. rewrite Eq in Hdm. rewrite N.pow_1_r. lia.
+  - apply N.eqb_neq in Eq. destruct (IH q ((48 + d)%N :: acc) a) as (m & Hm); [lia|].
+    exists (N.succ m). rewrite Hm. cbn [fold_left]. f_equal. rewrite N.pow_succ_r'. lia.
+Qed.
+
+(* str(n) determines n *)
+Lemma dec_nat_inj a b : dec_nat a = dec_nat b -> a = b.
+Proof.
+  intros H. unfold dec_nat in H.
+  destruct (dec_aux_undec (S a) (N.of_nat a) [] 0%N ltac:(lia)) as (m1 & H1).
+  destruct (dec_aux_undec (S b) (N.of_nat b) [] 0%N ltac:(lia)) as (m2 & H2).
+  rewrite H in H1. rewrite H1 in H2. unfold undec in H2. cbn [fold_left] in H2. lia.
+Qed.
+
+Lemma number_from_app {X} (l l' : list X) i : number_from i (l ++ l') = number_from i l ++ number_from (i + length l) l'.
+Proof.
+  revert i. induction l as [|a r IH]; intros i; cbn; [rewrite Nat.add_0_r; reflexivity|].
+  rewrite IH. replace (S i + length r) with (i + S (length r)) by lia. reflexivity.
+Qed.
+
+Lemma number_from_update {X} (l : list X) i j x : number_from i (RowSem.update l j x) = RowSem.update (number_from i l) j (i + j, x).
+Proof.
+  revert i j. induction l as [|a r IH]; intros i [|j]; cbn; try reflexivity.
+  - rewrite Nat.add_0_r. reflexivity.
+  - rewrite IH. replace (S i + j) with (i + S j) by lia. reflexivity.
+Qed.
+
+Lemma number_from_len {X} (l : list X) i : length (number_from i l) = length l.
+Proof. revert i. induction l as [|a r IH]; intros i; cbn; [reflexivity|]. rewrite IH. reflexivity. Qed.
+
+Lemma number_from_nth' {X} (l : list X) i j x : nth_error l j = Some x -> nth_error (number_from i l) j = Some (i + j, x).
+Proof.
+  revert i j. induction l as [|a r IH]; intros i [|j]; cbn; try discriminate.
+  - intros E. injection E as ->. rewrite Nat.add_0_r. reflexivity.
+  - intros E. rewrite (IH (S i) j E). replace (S i + j) with (i + S j) by lia. reflexivity.
+Qed.
+
+(* looking a bucket up by an explicit name (a name that does not look like an invented one) *)
+Lemma find_named_b nm (f : ccat -> ccat) cats : forall ccats i,
+  Forall2 (bucket_sim phi uu) (number_from i cats) ccats -> ~ is_bucket_name nm ->
+  match find_cat cats nm i with
+  | Some ci => exists j c, ci = i + j /\ j < length cats /\ nth_error ccats j = Some c
+                           /\ existsb (name_is nm) ccats = true
+                           /\ upd_first (name_is nm) f ccats = RowSem.update ccats j (f c)
+  | None => existsb (name_is nm) ccats = false
+  end.
+Proof.
+  induction cats as [|x l IH]; intros ccats i H Hg; cbn [number_from] in H; inversion H as [|a c l0 l' Hxc Hl]; subst;
+    cbn [find_cat existsb upd_first]; [reflexivity|].
+  destruct x as [cn dd]. destruct Hxc as [Hn _]. cbn [fst snd] in Hn.
+  assert (E : cname_is cn nm = name_is nm c).
+  { unfold name_is. destruct cn as [t|]; cbn.
+    - destruct Hn as [-> _]. reflexivity.
+    - symmetry. apply str_eqb_neq. intros E. apply Hg. rewrite <- E, Hn. eexists. reflexivity. }
+  rewrite <- E. destruct (cname_is cn nm).
+  - exists 0, c. cbn. repeat split; try reflexivity; lia.
+  - specialize (IH l' (S i) Hl Hg). destruct (find_cat l nm (S i)) as [ci|].
+    + destruct IH as (j & c' & -> & Hj & Hnj & He & Hu). exists (S j), c'. cbn. rewrite Hu. repeat split; auto; lia.
+    + exact IH.
+Qed.
+
+Lemma rand_sim_add_bucket n U d r name tgt d' r' n' :
+  rand_sim phi uu d r -> CatsOK fresh n U (rr_cats r) -> dest_sim phi uu tgt d' -> ~ is_bucket_name name ->
+  rr_add_choice fresh n r name d' = Ok (r', n') -> rand_sim phi uu (add_bucket d name tgt) r'.
+Proof.
+  intros [R1 R2 R3 R4] Hok Hd Hname. unfold rr_add_choice, add_bucket.
+  assert (Hlen : length (rr_cats r) = length (rd_cats d)) by (rewrite <- (Forall2_length' _ _ _ R3); apply number_from_len).
+  (* a new bucket cn/nm at the end *)
+  assert (Hnew : forall cn nm, match cn with CFixed s => s = nm /\ ~ is_bucket_name s | CWild => nm = s_Bucket ++ dec_nat (length (rd_cats d) + 2) end ->
+            match new_cat fresh n nm d' with Ok (c, n1) => Ok (mkRandom (rr_result r) (rr_cats r ++ [c]), n1) | Err e => Err e end = Ok (r', n') ->
+            rand_sim phi uu (mkDec true (rd_operand d) (rd_wait d) (rd_result d) (rd_cases d) (rd_cats d ++ [(cn, tgt)]) (rd_default d) (rd_noresp d)) r').
+  { intros cn nm Hcn. destruct (new_cat fresh n nm d') as [[c n1]|e] eqn:Ec; [|discriminate]. intros H. injection H as <- <-.
+    apply (new_cat_spec fresh fresh_inj) in Ec as (-> & ->). constructor; cbn.
+    - reflexivity.
+    - exact R2.
+    - rewrite number_from_app. apply Forall2_app; [exact R3|]. cbn. constructor; [|constructor]. split; cbn [fst snd]; [|exact Hd].
+      destruct cn as [s|]; cbn; [destruct Hcn as [-> Hb]; auto|exact Hcn].
+    - rewrite map_app. cbn. apply NoDup_insert with (b := []); rewrite ?app_nil_r; [exact R4|].
+      destruct Hok as [Hids _ _]. intros Hin.
+      assert (Hb : Forall (below fresh n) (map cc_uuid (rr_cats r))).
+      { rewrite Forall_forall in *. intros u Hu. apply in_map_iff in Hu as (c0 & <- & Hc0). apply Hids.
+        apply in_flat_map. exists c0. split; [exact Hc0|left; reflexivity]. }
+      exact (not_in_below fresh fresh_inj n n _ Hb (le_n _) Hin). }
+  destruct name as [|c0 nm0].
+  - (* an unnamed bucket: "Bucket <len + 2>", which no bucket is called yet *)
+    assert (Hex : existsb (name_is (s_Bucket ++ dec_nat (length (rr_cats r) + 2))) (rr_cats r) = false).
+    { apply not_true_is_false. intros Hex. apply existsb_exists in Hex as (c & Hin & Hc). apply In_nth_error in Hin as (j & Hj).
+      assert (Hjl : j < length (rd_cats d)) by (rewrite <- Hlen; apply nth_error_Some; congruence).
+      destruct (nth_error (rd_cats d) j) as [x|] eqn:Ex; [|apply nth_error_None in Ex; lia].
+      pose proof (number_from_nth' _ 0 _ _ Ex) as Enx.
+      destruct (Forall2_nth _ _ _ _ _ R3 Enx) as (c' & Ec' & [Hn _]). rewrite Hj in Ec'. injection Ec' as <-. cbn [fst snd] in Hn.
+      unfold name_is in Hc. apply str_eqb_eq in Hc. destruct (fst x) as [s|].
+      - destruct Hn as [-> Hb]. apply Hb. rewrite Hc. eexists. reflexivity.
+      - rewrite Hn in Hc. apply app_inv_head in Hc. apply dec_nat_inj in Hc. lia. }
+    rewrite Hex. apply (Hnew CWild). rewrite Hlen. reflexivity.
+  - set (nm := c0 :: nm0) in *.
+    pose proof (find_named_b nm (fun c => cat_set_dest c d') (rd_cats d) (rr_cats r) 0 R3 Hname) as Hfn.
+    destruct (find_cat (rd_cats d) nm 0) as [ci|].
+    + destruct Hfn as (j & c & -> & Hj & Hnj & Hej & Huj). cbn [plus]. rewrite Hej, Huj. intros H. injection H as <- <-.
+      destruct (nth_error (rd_cats d) j) as [[cnj dj]|] eqn:Ej; [|apply nth_error_None in Ej; lia].
+      pose proof (number_from_nth' _ 0 _ _ Ej) as Enx.
+      destruct (Forall2_nth _ _ _ _ _ R3 Enx) as (c' & Ec' & [Hn' _]). rewrite Hnj in Ec'. injection Ec' as <-.
+      constructor; cbn.
+      * reflexivity.
+      * exact R2.
+      * unfold set_cat_dest. rewrite Ej. rewrite number_from_update. apply Forall2_update; [exact R3|]. split; cbn [fst snd] in *; [exact Hn'|exact Hd].
+      * rewrite (map_uuid_update _ _ _ _ Hnj). exact R4.
+    + rewrite Hfn. apply (Hnew (CFixed nm)). split; [reflexivity|exact Hname].
 Qed.
 End AddCase.
 End WithNames.
